@@ -832,8 +832,28 @@ def mask_to_subset(mask):
     return [q for k, q in enumerate(QUBITS) if mask >> k & 1]
 
 
+DEVICE_MAP = {q: i for i, q in enumerate(QUBITS)}     # "one fixed numbering of the whole chip"
+
+
+def superset_map(r, involved, mode):
+    """supplied injective index map whose keys STRICTLY contain the involved qubits (whenever an uninvolved qubit exists):
+    mode 'device' = a numbering of all 17 chip qubits, mode 'extra' = involved + 1..4 uninvolved qubits.
+    Reading of the statement for the extra keys: they are the caller's numbering of qubits that are NOT involved; the derived
+    description must ignore them -- no gate on them is kept, they are not among its qubit_ids, circuit_channel_map has no entry
+    for their indices, they never appear among the park indices; bijectivity is required between the involved circuit qubits
+    and their indices (the supplied map is injective on all its keys, so that is satisfiable)."""
+    others = [q for q in QUBITS if q not in involved]
+    if mode == "device":
+        keys = list(involved) + others
+    else:
+        keys = list(involved) + (r.sample(others, r.randint(1, min(4, len(others)))) if others else [])
+    r.shuffle(keys)
+    return dict(zip(keys, r.sample(range(0, 40), len(keys))))
+
+
 def rec_from_mask(layout, mask, seed):
-    """subset `mask` of the 17 qubits in a pseudo-random order; every other mask carries a supplied index map"""
+    """subset `mask` of the 17 qubits in a pseudo-random order; mask % 3 == 1: supplied map over exactly the involved
+    qubits, mask % 3 == 2: supplied map over a strict superset (chip-wide or involved + a few)"""
     sub = mask_to_subset(mask)
     r = random.Random("%d/%s/%d" % (seed, layout, mask))   # string seeding is process-independent
     r.shuffle(sub)
@@ -841,6 +861,8 @@ def rec_from_mask(layout, mask, seed):
     if mask % 3 == 1:
         idx = r.sample(range(0, 40), len(sub))
         rec["index_map"] = dict(zip(sub, idx))
+    elif mask % 3 == 2:
+        rec["index_map"] = superset_map(r, sub, "device" if (mask // 3) % 2 else "extra")
     return rec
 
 
@@ -863,6 +885,9 @@ def composite_records(layout, base, rnd, thorough, src_layers):
 
     add()
     add(only_required=True)
+    add(index_map=dict(DEVICE_MAP))        # composite numbered by a chip-wide map (keys strictly contain its qubits)
+    if kept:
+        add(index_map=superset_map(rnd, list(base), "device"), ex_edges=[list(rnd.choice(kept)[::-1])])
     for k, g in enumerate(kept):
         for flip in ((False, True) if thorough or k == 0 else (bool(rnd.getrandbits(1)),)):
             add(ex_edges=[list(g[::-1] if flip else g)], only_required=False)
@@ -898,6 +923,11 @@ def enumerate_records(tier, seed):
                 rw = list(w[::-1])
                 recs.append({"kind": "derived", "layout": n, "involved": rw, "refocusing": False,
                              "index_map": dict(zip(rw, rnd.sample(range(0, 40), len(rw))))})
+                # supplied maps over a STRICT SUPERSET of the involved qubits: the fixed chip-wide numbering, a random
+                # chip-wide numbering, involved + a few uninvolved qubits
+                recs.append({"kind": "derived", "layout": n, "involved": list(w), "index_map": dict(DEVICE_MAP)})
+                recs.append({"kind": "derived", "layout": n, "involved": rw, "index_map": superset_map(rnd, rw, "device")})
+                recs.append({"kind": "derived", "layout": n, "involved": list(w), "index_map": superset_map(rnd, w, "extra")})
                 if thorough:   # data first then ancillas
                     dw = [q for q in w if q[0] == 'D'] + [q for q in w if q[0] != 'D']
                     recs.append({"kind": "derived", "layout": n, "involved": dw})
@@ -911,6 +941,11 @@ def enumerate_records(tier, seed):
             cnt += 1
             for n in names:
                 recs.append({"kind": "derived", "layout": n, "involved": list(tup)})
+    # every subset of size <= 2 (sorted order) with the fixed chip-wide numbering, all layouts; size 3 rotating
+    for k in range(0, 4):
+        for j, comb in enumerate(itertools.combinations(QUBITS, k)):
+            for n in (LAYOUT_NAMES if k <= 2 else [LAYOUT_NAMES[j % 3]]):
+                recs.append({"kind": "derived", "layout": n, "involved": list(comb), "index_map": dict(DEVICE_MAP)})
     if thorough:   # random ordered tuples of the next sizes
         for t in range(15000):
             recs.append({"kind": "derived", "layout": LAYOUT_NAMES[t % 3], "involved": rnd.sample(QUBITS, rnd.randint(4, 6))})
@@ -936,7 +971,15 @@ def enumerate_records(tier, seed):
         rec = {"kind": "derived", "layout": LAYOUT_NAMES[t % 3], "involved": sub}
         if t % 4 == 0:
             rec["index_map"] = dict(zip(sub, rnd.sample(range(0, 60), k)))
+        elif t % 4 == 1:
+            rec["index_map"] = superset_map(rnd, sub, "device")
+        elif t % 4 == 2:
+            rec["index_map"] = superset_map(rnd, sub, "extra")
         recs.append(rec)
+    for t in range(3000 if thorough else 600):   # smaller random subsets, where many uninvolved gate qubits exist
+        sub = rnd.sample(QUBITS, rnd.randint(2, 9))
+        recs.append({"kind": "derived", "layout": LAYOUT_NAMES[t % 3], "involved": sub,
+                     "index_map": dict(DEVICE_MAP) if t % 3 == 0 else superset_map(rnd, sub, "device" if t % 3 == 1 else "extra")})
     # 5. composites with exclusions
     bases = []
     for n in LAYOUT_NAMES:
@@ -1029,7 +1072,11 @@ STAND_INS = {
     "derived": ("RepetitionCodeDescription.from_connectivity + IRepetitionCodeDescription.get_gate_sequence_indices / get_park_sequence_indices / "
                 "circuit_channel_map / map_qubit_id_to_circuit_index / get_element",
                 "[clauses 'keep exactly the gates whose both qubits are involved', the four executability clauses on the derived layers, 'exactly once' "
-                "restricted to edges with both qubits involved, 'identifiers map to circuit indices bijectively'] recomputed from the raw layout tables",
+                "restricted to edges with both qubits involved, 'identifiers map to circuit indices bijectively'] recomputed from the raw layout tables. "
+                "Index maps: default, supplied over exactly the involved qubits, supplied over a strict superset (chip-wide / involved + extras). "
+                "Reading for extra keys: they number qubits that are NOT involved, so the description must ignore them (no gate on them kept, "
+                "not in qubit_ids, no entry in circuit_channel_map, never among park indices); bijectivity is required between the involved "
+                "circuit qubits and their indices, which must be the supplied ones",
                 None),
     "composite": ("CompositeRepetitionCodeDescription.gate_sequences (+ index observers, qubit_ids)",
                   "[same clauses for composites with exclusions] kept gates = gates of the gate-leading description minus excluded edges (unordered "
@@ -1110,7 +1157,10 @@ def run(tier, seed, out):
                 "layout for size 3); on %s; (iii) CompositeRepetitionCodeDescription over %s with: no exclusion, each kept gate edge excluded "
                 "singly, each involved qubit excluded singly, always with inherited (static) parking and -- thorough: for every edge and a "
                 "seeded half of the qubits, quick: for a seeded third -- also with only-required parking.  ADDITIONAL seeded samples (not exhaustive): "
-                "random subsets/orderings of size 5..17 (thorough: also 4..6) with default and supplied injective index maps; composites over "
+                "random subsets/orderings of size 5..17 and 2..9 (thorough: also 4..6) with default index maps, supplied injective maps over exactly "
+                "the involved qubits, and supplied injective maps over a STRICT SUPERSET of them (fixed chip-wide numbering, random chip-wide "
+                "numbering, involved + 1..4 uninvolved qubits); the superset maps are also fed, in the finite space, to every chain window "
+                "(3 variants) and to every subset of size <= 3 (fixed chip-wide numbering), and to a third of the mask-enumerated subsets; composites over "
                 "random bases, random mixtures of exclusions (<= 3 edges in random orientation, <= 2 qubits, readout/rotation exclusions as "
                 "noise), leading gate / readout descriptions.  An input is NON-TRIVIAL if at least one gate survives the involved-qubit filter "
                 "(derived), resp. at least one gate is removed by an exclusion or a leading gate description is set (composite); table inputs "
